@@ -38,6 +38,10 @@ def upd(a, s="s1", cfg="", add=(), rem=()):
 
 
 D = upd("Drain", "")
+NAME_PAIRS = [("a.b", "a_b"), ("A.b", "a-b"), ("a/b", "a.b")]   # names with characters a lower layer treats specially
+ALL_NAMES = ["s1", "s2", "a.b", "a_b", "A.b", "a-b", "a/b"]
+REWRITE_PROBE = [upd("DepAdd", "a.b"), upd("Config", "a.b", cfg="v1"), upd("Endpoint", "a.b", add=["a1"]), D,
+                 upd("Endpoint", "a.b", add=["a2"]), D, upd("DepRemove", "a.b"), D]
 PROBES = {
     "FixRemovalsOnly": [upd("DepAdd"), upd("Config", cfg="v1"), upd("Endpoint", rem=["a1"]), D,
                         upd("Endpoint", add=["a1"]), D],
@@ -61,12 +65,34 @@ def cfg_text(spec, consts, extra=()):
     return "\n".join(lines) + "\n"
 
 
+def tla_set(names):
+    return "{" + ", ".join('"%s"' % n for n in names) + "}"
+
+
+def rename(beh, mapping):
+    """The same behaviour with other service names (the module is symmetric in the names as long as no layer
+    rewrites them)."""
+    m = lambda n: mapping.get(n, n)
+    steps = []
+    for st in beh["steps"]:
+        st = dict(st)
+        st["s"] = m(st["s"])
+        if st.get("ev"):
+            st["ev"] = dict(st["ev"], s=m(st["ev"]["s"]))
+        for k in ("tab", "procs"):
+            if st.get(k) is not None:
+                st[k] = {m(n): v for n, v in st[k].items()}
+        steps.append(st)
+    return dict(beh, svcs=[m(n) for n in beh["svcs"]], static=[m(n) for n in beh["static"]], steps=steps)
+
+
 def consts(flags, svcs='{"s1", "s2"}', naddr=2, static="{}", h=5, cap=2, perms=False, avoid=False):
     c = collections.OrderedDict()
     c["Svcs"], c["NAddr"], c["Static"], c["H"], c["Cap"], c["Perms"] = svcs, naddr, static, h, cap, perms
     for f in FLAGS:
         c[f] = flags[f]
     c["AvoidWindows"] = avoid
+    c["ProcRewritesName"] = bool(flags.get("ProcRewritesName", False))
     return c
 
 
@@ -85,6 +111,8 @@ def signature(v):
     """Stable name of a non-converged observation: the first input class (window) the service went through since
     it was last converged that can produce this symptom; an unexplained symptom is named by the symptom."""
     why, store, wins = v["why"], v["store"], v.get("wins") or []
+    if "service-name-rewritten" in wins:   # the processor built for the service reports another name: whatever follows is lost
+        return "not-converged/service-name-rewritten"
     w1 = "first-update-removals-only"   # a processor created too early misses everything sent before its real add-event
     if why == "no-processor-for-configured-service":
         compat = ["invalid-config-corrected"]
@@ -194,8 +222,9 @@ Tally.crashed = _crashed
 def replay_behaviours(ctx, tally, mode, behs, final=False):
     if not behs:
         return []
-    bfile = os.path.join(ctx.work, "beh-%s.ndjson" % mode)
-    rfile = os.path.join(ctx.work, "res-%s.ndjson" % mode)
+    fn = re.sub(r"[^A-Za-z0-9_.,-]", "%", mode)
+    bfile = os.path.join(ctx.work, "beh-%s.ndjson" % fn)
+    rfile = os.path.join(ctx.work, "res-%s.ndjson" % fn)
     kit.write_ndjson(bfile, behs)
     args = ["c08-replay", "-in", bfile, "-out", rfile]
     if final:
@@ -216,13 +245,20 @@ def replay_behaviours(ctx, tally, mode, behs, final=False):
 
 def probe(ctx, tally):
     behs = [{"id": i, "svcs": ["s1", "s2"], "static": [], "cap": 2, "steps": PROBES[f]} for i, f in enumerate(FLAGS)]
+    behs.append({"id": len(behs), "svcs": ["a.b", "a_b"], "static": [], "cap": 2, "steps": REWRITE_PROBE})
     results = replay_behaviours(ctx, tally, "probe", behs, final=True)
     flags = {}
+    rw = results[-1]
+    if rw.get("err"):
+        raise kit.Inconclusive("probe names: %s" % rw["err"])
+    ctx.case(key=["probe", "names"], nontrivial=True)
+    rewrites = any(signature(v) == "not-converged/service-name-rewritten" for v in rw.get("viol") or [])
     for f, r in zip(FLAGS, results):
         if r.get("err"):
             raise kit.Inconclusive("probe %s: %s" % (f, r["err"]))
         flags[f] = not r.get("viol")   # (a probe that crashed has been reported by judge; the flag is then a guess)
         ctx.case(key=["probe", f], nontrivial=True)
+    flags["ProcRewritesName"] = rewrites
     return flags
 
 
@@ -268,7 +304,8 @@ def replay(ctx, rep):
             elif e.get("ev") == "ctl":
                 steps.append(upd("Ctl", ""))
         beh = {"static": beh.get("static"), "steps": steps}
-    b = {"id": 0, "svcs": beh.get("svcs") or ["s1", "s2"], "static": beh.get("static") or [], "cap": beh.get("cap", 2),
+    names = sorted({st["s"] for st in beh["steps"] if st.get("s")} | set(beh.get("static") or []))
+    b = {"id": 0, "svcs": beh.get("svcs") or names or ["s1", "s2"], "static": beh.get("static") or [], "cap": beh.get("cap", 2),
          "steps": strip_model(beh["steps"])}
     tally = Tally(ctx)
     res = replay_behaviours(ctx, tally, "replay", [b], final=True)
@@ -300,46 +337,55 @@ def run(ctx):
         for f in FLAGS:
             if k.get("signature") == "not-converged/" + WINDOW_OF[f] and flags[f]:
                 raise kit.Inconclusive("known finding %s no longer reproduces (stale entry)" % k.get("signature"))
-    all_fixed = all(flags.values())
+    all_fixed = all(flags[f] for f in FLAGS)
 
     # 1. exhaustive: the repaired design
     if ctx.thorough:
         r = ctx.mc("config", "ConfigFlow", "MC_ConfigFlow_fixed_quick.cfg", workers=4, timeout=300, coverage=True, count=False)
         ctx.check_vacuity(r, "ConfigFlow")
-        ctx.mc("config", "ConfigFlow", "MC_ConfigFlow_fixed.cfg", workers=8, timeout=900)
-        ctx.mc("config", "ConfigFlow", "MC_ConfigFlow_fixed_a3.cfg", workers=8, timeout=900)
-        ctx.mc("config", "ConfigFlow", "MC_ConfigFlow_fixed_perms.cfg", workers=8, timeout=900)
-        ctx.mc("config", "ConfigFlow", "MC_ConfigFlow_fixed_static.cfg", workers=8, timeout=900)
-        ctx.mc("config", "ConfigFlow", "MC_ConfigFlow_fixed_cap1.cfg", workers=8, timeout=900)
-    else:
-        ctx.mc("config", "ConfigFlow", "MC_ConfigFlow_fixed_quick.cfg", workers=4, timeout=300)
+        ctx.mc("config", "ConfigFlow", "MC_ConfigFlow_fixed.cfg", workers=4, timeout=1500)
+        ctx.mc("config", "ConfigFlow", "MC_ConfigFlow_fixed_a3.cfg", workers=4, timeout=1500)
+        ctx.mc("config", "ConfigFlow", "MC_ConfigFlow_fixed_perms.cfg", workers=4, timeout=1500)
+        ctx.mc("config", "ConfigFlow", "MC_ConfigFlow_fixed_static.cfg", workers=4, timeout=1500)
+        ctx.mc("config", "ConfigFlow", "MC_ConfigFlow_fixed_cap1.cfg", workers=4, timeout=1500)
+    # the same design with names that lower layers treat specially (isomorphic to MC_ConfigFlow_fixed_quick as long as no
+    # layer rewrites a name); the variant in which the processor layer normalises the name must lose convergence
+    ctx.mc("config", "ConfigFlow", "MC_ConfigFlow_fixed_names.cfg", workers=4, timeout=300)
+    ctx.mc("config", "ConfigFlow", "MC_ConfigFlow_rewrite.cfg", workers=4, timeout=300, expect_violated=["Converged"], count=False)
     ctx.cov["exhaustive"] = True
 
     # 2. anti-vacuity: every defect is still reachable in its variant; nothing else breaks the tree's variant
     inv = ["INVARIANTS TypeOK NoDupStore ViewsReadable Converged", "PROPERTIES UnknownIgnored"]
     for f in FLAGS:   # spec/config/MC_ConfigFlow_<variant>.cfg are the same configurations with H = 5
+        if flags[f] and not ctx.thorough:
+            continue      # quick tier: only the defects the tree still has (the repaired ones are re-derived in the thorough tier)
         name = "MC_ConfigFlow_only_%s.cfg" % VARIANT_OF[f]
-        p = write_cfg(ctx, name, cfg_text("Spec", consts({g: g != f for g in FLAGS}, h=5 if ctx.thorough else 4), inv))
+        p = write_cfg(ctx, name, cfg_text("Spec", consts({g: g != f for g in FLAGS}, h=5 if ctx.thorough else 4), inv))   # ProcRewritesName FALSE
         ctx.mc("config", "ConfigFlow", name, workers=4, timeout=300, expect_violated=["Converged"], count=False, extra_files=[p])
     if ctx.thorough:
         ctx.mc("config", "ConfigFlow", "MC_ConfigFlow_pinned.cfg", workers=4, timeout=300, expect_violated=["Converged"], count=False)
     if not all_fixed:
         name = "MC_ConfigFlow_tree_avoid.cfg"
-        p = write_cfg(ctx, name, cfg_text("Spec", consts(flags, h=6 if ctx.thorough else 5, avoid=True), inv))
-        ctx.mc("config", "ConfigFlow", name, workers=8 if ctx.thorough else 4, timeout=900, extra_files=[p])
+        p = write_cfg(ctx, name, cfg_text("Spec", consts(flags, h=6 if ctx.thorough else 4, avoid=True), inv))
+        ctx.mc("config", "ConfigFlow", name, workers=4, timeout=1500, extra_files=[p])
 
     # 3. spec -> code
     cover = ["VIEW vars", "ACTION_CONSTRAINT EmitEdge"]
     gens = [("cover", "CoverSpec", consts(flags, h=5 if ctx.thorough else 4), cover, "EDGE", [], "mc", {}),
+            # names that lower layers treat specially, "a.b" and "a_b" together: by symmetry a renamed copy of the cover
+            # (below) unless the tree's processor layer rewrites names - then the module is not symmetric and TLC emits it
+            ("cover-names", "CoverSpec", consts(flags, svcs=tla_set(NAME_PAIRS[0]), h=4), cover, "EDGE", [], "mc", {}),
             ("cover-static", "CoverSpec", consts(flags, static='{"s1"}', h=3 if ctx.thorough else 2), cover, "EDGE", ["s1"], "mc", {}),
             ("cover-cap1", "CoverSpec", consts(flags, svcs='{"s1"}', naddr=3 if ctx.thorough else 2, h=4, cap=1), cover, "EDGE", [], "mc", {}),
             ("sim", "GenSpec", consts(flags, naddr=3, h=12, perms=True), [], "BEH", [], "sim",
              {"sim_num": 2500 if ctx.thorough else 250, "sim_depth": 80, "seed": ctx.seed})]
     summary = {}
     for mode, spec, cs, extra, tag, static, tlcmode, kw in gens:
+        if mode == "cover-names" and not flags["ProcRewritesName"]:
+            continue
         name = "Gen_ConfigFlow_%s.cfg" % mode.replace("-", "_")
         p = write_cfg(ctx, name, cfg_text(spec, cs, extra))
-        svcs = ["s1"] if cs["Svcs"] == '{"s1"}' else ["s1", "s2"]
+        svcs = ["s1"] if cs["Svcs"] == '{"s1"}' else list(NAME_PAIRS[0]) if mode == "cover-names" else ["s1", "s2"]
         behs, r = gen_behaviours(ctx, name, tag, svcs, static, cs["Cap"], mode=tlcmode, workers=1, timeout=900, extra_files=[p], **kw)
         if tlcmode == "mc" and len(behs) != r.generated - 1:
             raise kit.Inconclusive("transition cover %s: %d transitions, %d behaviours emitted" % (mode, r.generated - 1, len(behs)))
@@ -348,6 +394,14 @@ def run(ctx):
         results = replay_behaviours(ctx, tally, mode, behs)
         exact = count_cases(ctx, mode, behs, results)
         summary[mode] = {"behaviours": len(behs), "followed_exactly": exact}
+        if mode == "cover":   # every behaviour of the cover again with the other difficult names
+            for a, b in (NAME_PAIRS[1:] if flags["ProcRewritesName"] else NAME_PAIRS):
+                rb = [rename(x, {"s1": a, "s2": b}) for x in behs]
+                if flags["ProcRewritesName"]:   # the symmetry argument does not hold on this tree: judge by the predicate only
+                    rb = [dict(x, steps=strip_model(x["steps"])) for x in rb]
+                m2 = "cover-" + a + "," + b
+                rr = replay_behaviours(ctx, tally, m2, rb)
+                summary[m2] = {"behaviours": len(rb), "followed_exactly": count_cases(ctx, m2, rb, rr)}
         if mode == "cover" and behs:
             i = max(range(len(behs)), key=lambda j: len(behs[j]["steps"]))
             ctx.sample({"mode": mode, "behaviour": [(s["a"], s["s"], s["cfg"], s["add"], s["rem"]) for s in behs[i]["steps"]],
@@ -371,7 +425,7 @@ def run(ctx):
         ctx.case(key=["random", r["static"], [(e.get("ev"), e.get("a"), e.get("s"), e.get("cfg"), e.get("add"), e.get("rem")) for e in r["events"]]],
                  nontrivial=r.get("ctlsteps", 0) > 0 and r.get("qchecks", 0) > 0)
     name = "Trace_ConfigFlow_tree.cfg"
-    p = write_cfg(ctx, name, cfg_text("TraceSpec", consts(flags, naddr=3, h=1000000),
+    p = write_cfg(ctx, name, cfg_text("TraceSpec", consts(flags, svcs=tla_set(ALL_NAMES), naddr=3, h=1000000),
                                       ["INVARIANTS TypeOK NoDupStore ViewsReadable", "POSTCONDITION TraceAccepted"]))
     good = [r for r in rnd if not r.get("err") and not r.get("crash")]
     tfile = os.path.join(ctx.work, "trace.json")
